@@ -24,7 +24,7 @@ RULE = ("site in {caltech, jpl, office001} x basic/real EVSEs x generated transf
         "climb order kind, which transformer saturates)")
 PROBES = ["climb", "within_1pct_of_transformer", "concentrated_phase_pair", "sim_world", "sim_columns_checked",
           "jpl_first_floor_saturated", "jpl_third_fourth_saturated", "pod_or_panel_binding", "evse_limited_climb", "int_dtype_probe", "json_restart", "multi_period_probe",
-          "multi_period_reported_feasible", "what_if_constraint_removed_on_own_copy", "schedule_over_1000_periods", "caltech_built_through_old_alias", "schedule_as_dataframe"]
+          "multi_period_reported_feasible", "what_if_constraint_removed_on_own_copy", "schedule_over_1000_periods", "caltech_built_through_old_alias", "schedule_as_dataframe", "concurrent_callers", "thread_switches"]
 FAULT_DIMENSION = "restart only (site network saved to JSON and loaded before probing); otherwise saturated-state distribution"
 REAL_VS_STUB = "real: caltech_acn / jpl_acn / office001_acn, Current algebra, ChargingNetwork.is_feasible, sorted algorithm + Simulator in the in-simulation layer"
 ASSUMPTIONS = ["external truth: which EVSEs sit behind which transformer (Caltech/Office001: all; JPL: AG-1F* vs AG-3F*/AG-4F*), "
@@ -208,6 +208,7 @@ def check(sc):
             structural(out, nw, sc["site"], sc["site_kwargs"], ids)
         best = {}
         kinds = []
+        thread_log = []
         for c in range(sc["climbs"]):
             if out.viol:
                 break
@@ -255,6 +256,33 @@ def check(sc):
                                        "column %d of a %d-period schedule reported feasible (hill climb %d, %s)" % (pos, T, c, kind), feasible_known=True)
                         if out.viol:
                             break
+            # two caller threads ask the same network object at the same time (a web service answering two what-if requests): the
+            # interleaving of their steps is decided by the run's seed; each must get the answer it would get alone
+            if not out.viol and sub(sc["seed"], "threads", c).random() < 0.35:
+                from ..threads import Interleaver
+                Tt = 2
+                A_ = np.array([[cols[3][k_]] * Tt for k_ in range(len(vec))], dtype=float)      # the heavier column
+                B_ = np.array([[cols[1][k_]] * Tt for k_ in range(len(vec))], dtype=float)      # half the saturated point
+                alone = (bool(nw.is_feasible(A_)), bool(nw.is_feasible(B_)))
+                il = Interleaver(sub(sc["seed"], "interleave", c), sut.in_repo)
+                res_, info_ = il.run([lambda: bool(nw.is_feasible(A_)), lambda: bool(nw.is_feasible(B_))])
+                out.probe("concurrent_callers")
+                out.probe("thread_switches", info_["switches"])
+                for (kind_, val_), alone_, nm_ in zip(res_, alone, ("heavier", "lighter")):
+                    if kind_ == "exc":
+                        from ..driver import classify_exception
+                        if classify_exception(val_) == "harness":
+                            raise val_
+                        out.add("C16/concurrent_callers", "two threads calling is_feasible on one network: %s: %s (interleaving %s)"
+                                % (type(val_).__name__, str(val_)[:100], info_["order"][:30]))
+                        break
+                    if val_ != alone_:
+                        out.add("C16/concurrent_callers", "two threads calling is_feasible on one %s network (interleaving %s): the %s schedule is "
+                                "reported %s, alone it is reported %s" % (sc["site"], info_["order"][:30], nm_, val_, alone_))
+                        break
+                if not out.viol and res_[0][1] is True:
+                    check_schedule(out, nw, sc["site"], sc["site_kwargs"], ids, cols[3], "heavier schedule reported feasible to one of two concurrent callers", feasible_known=True)
+                thread_log.append(tuple(info_["order"][:50]))
             # the same point rounded up/down to whole amps, handed over as an *integer-dtype* matrix
             for rnd, nm in ((math.ceil, "ceil"), (math.floor, "floor")):
                 iv = [int(min(rnd(v), m)) for v, m in zip(vec, nw.max_pilot_signals)]
@@ -289,7 +317,7 @@ def check(sc):
             out.probe("jpl_third_fourth_saturated")
     capb = tuple(sorted((k, int(v // 20)) for k, v in sc["site_kwargs"].items() if k.endswith("cap")))
     out.sig = digest((sc["site"], sc["site_kwargs"]["basic_evse"], capb, kinds, sat))
-    out.digest = digest((best, out.tags()))
+    out.digest = digest((best, out.tags(), thread_log if "thread_log" in dir() else None))
     out.calls = sc["climbs"]
     return out
 
